@@ -510,6 +510,7 @@ def rule_xref(c, prog, d):
         diff = sorted(set(jc) ^ set(d.classes))[:5]
         c.violation(R, "class-set", f"the two databases list different classes, e.g. {diff}", "rbx_dom_lua/src/database.json", instance="class-set")
     n = 0
+    nonfinite = []
     for ck in sorted(set(jc) & set(d.classes)):
         cl = d.classes[ck]
         jcl = jc[ck]
@@ -551,6 +552,12 @@ def rule_xref(c, prog, d):
                 (jvk, _), = list(jd[dk_].items())
                 if jvk != vk:
                     c.violation(R, f"default-type|{ck}.{dk_}", f"default {ck}.{dk_} is a {vk} in msgpack and a {jvk} in database.json", "rbx_dom_lua/src/database.json", instance=f"default:{ck}.{dk_}")
+                elif vk in ("Float32", "Float64") and list(jd[dk_].values())[0] is None:
+                    nonfinite.append(f"{ck}.{dk_}")
+    if nonfinite:
+        c.violation(R, "json-default|non-finite-as-null", f"{len(nonfinite)} Float32 defaults that database.msgpack stores as +inf / NaN are `null` in database.json ({', '.join(nonfinite[:4])}, …): serde_json writes non-finite numbers as null, so the JSON copy holds defaults that are not values of the declared type and cannot be decoded as the Float32 its tag announces", "rbx_dom_lua/src/database.json", instance="json-defaults:finite")
+    else:
+        c.ok(R, "json-defaults:finite")
     c.rules[R]["instances"].add("descriptors")
     c.floor(R, n, 3000, "descriptors cross-checked")
     je = j.get("Enums", {})
